@@ -378,7 +378,8 @@ class CallGraphQuery:
         if status == "RUNNING":
             return Job.end_time.is_(None) & Job.call_hash.is_(None)
         elif status == "CACHED":
-            return Job.cached.is_(True)
+            # A cached (CSE) job that failed is displayed as FAILED, not CACHED.
+            return Job.cached.is_(True) & (Value.type != REDUN_ERROR_TYPE_NAME)
         elif status == "FAILED":
             return Value.type == REDUN_ERROR_TYPE_NAME
         elif status == "DONE":
